@@ -36,6 +36,7 @@ import (
 	cachepartstore "github.com/jdillenkofer/pithos/internal/storage/metadatapart/partstore/cache"
 	fspartstore "github.com/jdillenkofer/pithos/internal/storage/metadatapart/partstore/filesystem"
 	"github.com/jdillenkofer/pithos/internal/verif/vkit"
+	"github.com/jdillenkofer/pithos/internal/verifhook"
 )
 
 const (
@@ -750,6 +751,11 @@ var c19PartSizes = []int{300, 1200, 2000, 2048, 2049, 3000}
 
 var errInjectedRollback = errors.New("harness: injected transaction failure")
 
+// Stale or rolled-back bytes that came straight out of the inner (filesystem)
+// part store - the cache only passed them through. One signature: the cache
+// layer is not the origin, whatever the symptom.
+const c19InnerStoreSig = "inner-store-served-stale-or-rolled-back-bytes"
+
 // one SQLite database per child process (only used for the write transactions
 // that carry PutPart / DeletePart and their commit hooks)
 var c19EnvCached *vkit.Env
@@ -836,8 +842,11 @@ func partstoreRound(spec c19Spec, round int, rr *c19RoundResult) error {
 				seq++
 				op.Seq = seq
 				op.Size = vkit.Pick(rg, c19PartSizes)
-				if rg.Chance(12) {
-					op.Fail = "rollback" // the transaction fails after PutPart returned
+				if rg.Chance(14) {
+					op.Fail = "rollback" // fn fails after PutPart returned: rollback before any commit hook ran
+					if rg.Bool() {
+						op.Fail = "commit-fail" // commit fails after the pre-commit hooks ran (hook tx.commit.before-db)
+					}
 				}
 			default:
 				op.Kind = "delete"
@@ -882,6 +891,11 @@ func partstoreRound(spec c19Spec, round int, rr *c19RoundResult) error {
 					}
 				case "put":
 					v := makeValue(op.Key, w, op.Seq, op.Size)
+					if op.Fail == "commit-fail" {
+						sc := verifhook.NewScope()
+						verifhook.SetScoped(sc, "tx.commit.before-db", func(string, int64) error { return errInjectedRollback })
+						ctx = verifhook.WithScope(ctx, sc)
+					}
 					err := database.WithTx(ctx, env.DB, nil, func(ctx context.Context, tx database.Tx) error {
 						op.Order = atomic.AddInt64(&orderCtr, 1)
 						if err := ps.PutPart(ctx, tx, p.id, &slowReader{data: v, p: pc, failAt: -1}); err != nil {
@@ -1012,11 +1026,25 @@ func partstoreRound(spec c19Spec, round int, rr *c19RoundResult) error {
 				}
 				if p.End != 0 && p.Err != "" && p.End < o.Start {
 					rr.count("get_value_of_rolled_back_put", 1)
-					how := "cache-hit"
-					if o.Inner {
-						how = "inner-store"
+					how := "inner-store"
+					var callsRel []string
+					if !o.Inner {
+						ins, rel := inserter(o.Key, *o.Got, o.End)
+						callsRel = rel
+						switch {
+						case ins == nil:
+							how = "cache-partstore-unknown-inserter"
+						case ins.Size < 0:
+							how = "cache-partstore-fill-of-uncommitted-bytes" // a tx-free read saw the file published by the pre-commit hook
+						default:
+							how = "cache-partstore-set-by-rolled-back-put"
+						}
 					}
-					add("value-of-rolled-back-put:cache-partstore-"+how, fmt.Sprintf("GetPart(%s) started at tick %d returned the value of a PutPart whose transaction had failed (%s) and returned at tick %d", o.Key, o.Start, p.Err, p.End), o, nil)
+					sigRB := "value-of-rolled-back-put:" + how
+					if o.Inner {
+						sigRB = c19InnerStoreSig
+					}
+					add(sigRB, fmt.Sprintf("GetPart(%s) started at tick %d returned the value of a PutPart (%s) whose transaction had failed and returned at tick %d", o.Key, o.Start, p.Fail, p.End), o, map[string]any{"cache_calls_for_id": callsRel})
 					break
 				}
 				if p.Err != "" {
@@ -1076,7 +1104,11 @@ func partstoreRound(spec c19Spec, round int, rr *c19RoundResult) error {
 					}
 				}
 				rr.count(kind, 1)
-				add(kind+":"+how, fmt.Sprintf("GetPart(%s) started at tick %d and returned the value of put (w%d,seq %d, tx order %d) although %s (tx order %d) of the same id had returned at tick %d", o.Key, o.Start, p.W, p.Seq, p.Order, staleBy.Kind, staleBy.Order, staleBy.End), o,
+				sigStale := kind + ":" + how
+				if o.Inner {
+					sigStale = c19InnerStoreSig
+				}
+				add(sigStale, fmt.Sprintf("GetPart(%s) started at tick %d and returned the value of put (w%d,seq %d, tx order %d) although %s (tx order %d) of the same id had returned at tick %d", o.Key, o.Start, p.W, p.Seq, p.Order, staleBy.Kind, staleBy.Order, staleBy.End), o,
 					map[string]any{"superseded_by": staleBy.brief(), "cache_calls_for_id": callsRel})
 			case "partial", "mixed", "garbage", "foreign":
 				sig := valueSignature(o.Class, spec.Persistor)
@@ -1098,8 +1130,11 @@ func partstoreRound(spec c19Spec, round int, rr *c19RoundResult) error {
 				rr.seen("get_errors", o.Err)
 			}
 		case "put":
-			if o.Fail == "rollback" {
-				rr.count("put_rolled_back", 1)
+			if o.Fail != "" {
+				rr.count("put_"+o.Fail, 1)
+				if o.Err != "injected-rollback" {
+					rr.seen("put_errors", "fail="+o.Fail+" err="+o.Err)
+				}
 			} else if o.Err != "" {
 				rr.seen("put_errors", o.Err)
 			}
